@@ -143,7 +143,7 @@ class Gen:
             # the threshold by less than any absolute tolerance a comparison might use (values kept small: 32-bit TLC)
             t = [t[0] % 100 + i * r.choice([86400 * 400, 86400 * 250]) for i in range(n)]
             x = [v if v == NA else abs(v) % 4 for v in x]
-            thr = [1, r.choice([200000000, 50000000, 400000000])]
+            thr = [1, r.choice([20000000, 10000000, 5000000])]      # (dx * denominator must stay below 2^31 also for derived calls)
         c = mk("roc", x=x, t=t, p={"thr": thr})
         if r.random() < 0.06:             # mismatched lengths are rejected
             k = r.randint(0, n + 2)
